@@ -75,4 +75,12 @@ def collectPath (plain : Bool) (base p : Str) : Str :=
   let q := if isAbs p then p else joinPath base p
   if collectNormalises plain (isAbs p) then normpath q else q
 
+/-- `shared.parse_paths` applied to one spelling of the `paths` argument, on a file system without symbolic links
+(there `Path(p).resolve()` is `normpath` of the absolute path; what `resolve` does to links is trusted and exercised by the
+check).  Whether the code resolves at all is a translator fact. The module path of every collected task — and with it the
+task's signature — is built from this path. -/
+def parsePath (cwd p : Str) : Str :=
+  let q := if isAbs p then p else joinPath cwd p
+  if Generated.parsePathsResolves then normpath q else q
+
 end Pytask.PathNorm
